@@ -11,6 +11,7 @@ import (
 	"encoding/json"
 	"fmt"
 	"os"
+	"os/exec"
 	"path/filepath"
 	"regexp"
 	"sort"
@@ -402,10 +403,19 @@ func binaryStage(r *ev.Run, scratch string) {
 	docs := []string{filepath.Join(td, "positive", "sample.json"), filepath.Join(td, "examples", "petstore-expanded.yml")}
 	other := filepath.Join(td, "positive", "http_requests.json")
 	raceLog := filepath.Join(scratch, "race-bin")
+	// strace as delay injector: every rename is held for 3 ms at entry. The unchanged writer renames nothing (the
+	// injection is inert); a writer that publishes files through a temporary name gets the window between "written"
+	// and "renamed" widened, which is where two template goroutines of one process would meet.
+	_, straceErr := exec.LookPath("strace")
 	gen := func(target, doc string, procs int) (string, error) {
 		env := genlab.GoEnv(fmt.Sprintf("GOMAXPROCS=%d", procs), "GORACE=halt_on_error=0 log_path="+raceLog)
+		if straceErr == nil && procs > 1 {
+			return genlab.RunIn(scratch, 10*time.Minute, env, "strace", "-f", "--seccomp-bpf", "-o", "/dev/null", "-e", "trace=rename,renameat,renameat2",
+				"-e", "inject=rename,renameat,renameat2:delay_enter=3000", bin, "--target", target, "--package", "api", doc)
+		}
 		return genlab.RunIn(scratch, 10*time.Minute, env, bin, "--target", target, "--package", "api", doc)
 	}
+	r.Set("binary_stage_rename_delay_injection", straceErr == nil)
 	read := func(dir string) map[string]string {
 		out := map[string]string{}
 		ents, _ := os.ReadDir(dir)
@@ -435,7 +445,7 @@ func binaryStage(r *ev.Run, scratch string) {
 				r.Inconclusive("binary-stage-outdated-generation-failed", tailN(out, 400))
 				break
 			}
-			procs := []int{1, 4, 16, 2, 8, 5}[k%6]
+			procs := []int{4, 16, 1, 2, 8, 5}[k%6]
 			out, err := gen(target, doc, procs)
 			r.Eval(1)
 			r.Distinct(fmt.Sprintf("bin|%s|%d", id, k))
